@@ -18,7 +18,7 @@ PROJ = {
     "TraceHooks": {"kinds": {"hook": None, "ret": ["batch"], "acc": ["m", "t", "tm", "obj", "req", "mo"], "canc": ["m", "t", "tm"],
                              "round": ["m", "t", "fills"], "tick": ["m", "t"], "sessB": ["s", "start"], "sessE": ["s"], "stepB": ["m", "t"], "stepE": ["m", "t"],
                              "simE": [], "abort": None}},
-    "TraceLog": {"kinds": {"acc": ["m", "id", "t", "a", "buy", "mo", "px", "vol", "ttl"], "canc": ["m", "id", "t", "ovol"],
+    "TraceLog": {"kinds": {"acc": ["m", "id", "t", "a", "buy", "mo", "px", "vol", "ttl"], "canc": ["m", "id", "tm", "ovol"],
                            "round": ["m", "t", "fills"], "tick": ["m", "t", "exp"], "lp": ["kind", "ref", "f"], "lw": ["kind", "via"], "flush": [],
                            "stepB": ["s"], "stepE": ["s"], "simB": [], "sessB": ["s"], "sessE": ["s"], "simE": [], "abort": None}},
     "TraceSched": {"kinds": {"sessB": ["s"], "stepB": ["m", "s", "t"], "stepE": ["m"], "consult": ["a", "hft"],
@@ -100,6 +100,10 @@ def validate(runs, spec, tag=None):
 N_RUNS = {"quick": 150, "thorough": 3000}
 # property -> list of (trace spec, verdict key); "book" = per-market histories of the runs through TraceBook
 SPECS_FOR = {
+    "C01": [("book", "C01")],
+    "C02": [("book", "C02")],
+    "C08": [("book", "C08")],
+    "C03": [("TraceEvents", "C03")],
     "C04": [("TraceOwner", "C04")],
     "C05": [("TraceLedger", "C05")],
     "C11": [("TraceLedger", "C11")],
@@ -275,7 +279,16 @@ def check(prop, tier, seed, t0):
             for i, r in enumerate(runs):
                 vd = verdicts[i][1].get(key, "ok")
                 cases.append({"verdict": vd, "sig": dict(r.get("sig", {}), src=r.get("src", "?")),
-                              "replay": {"group": "run", "cfg": r["cfg"], "seed": r["seed"], "scenario": r.get("scenario")}})
+                              "replay": {"group": "run", "cfg": r["cfg"], "seed": r["seed"], "scenario": r.get("scenario"),
+                                         "neg": r.get("evhdr", {}).get("neg", "")}})
+    # spec -> code replays: a behaviour of the specification that the implementation does not reproduce (state compared after
+    # every step) is a verdict for the property the differing state belongs to
+    for r in runs:
+        mm = r.get("mismatch") or {}
+        if prop in mm:
+            cases.append({"verdict": "%s:replayed-behaviour-of-the-specification-not-reproduced-%s@0" % (prop, mm[prop]),
+                          "sig": dict(r.get("sig", {}), src=r.get("src", "?")),
+                          "replay": {"group": "run", "cfg": r["cfg"], "seed": r["seed"], "scenario": r.get("scenario")}})
     if prop == "C13":
         # the registry API itself: TLC behaviours of PamsHooks replayed into the real Simulator, and random histories,
         # validated by TraceHookReg
@@ -382,6 +395,10 @@ def replay(prop, path):
         run = scenarios_run.rerun(rp["scenario"])
     else:
         run = drive_run.execute(rp["cfg"], rp["seed"])
+    if any(spec == "TraceEvents" for spec, _ in SPECS_FOR[prop]):
+        from . import drive_events
+        run["evhdr"] = drive_events.header_from_cfg(rp["cfg"])
+        run["evhdr"]["neg"] = rp.get("neg", "")
     bad = False
     from . import group_book
     for spec, key in SPECS_FOR[prop]:
